@@ -457,6 +457,11 @@ const HAND_INPUTS: &[(&str, &str)] = &[
     ("hand-input:default-of-a-module-qualified-reference", "Mq1 DEFINITIONS AUTOMATIC TAGS ::= BEGIN\nTq1 ::= SEQUENCE { fq3 Mq3.Tq5 DEFAULT 3 }\nEND\nMq3 DEFINITIONS AUTOMATIC TAGS ::= BEGIN\nTq5 ::= INTEGER (0..10)\nEND\n"),
     ("hand-input:component-names-that-differ-by-case-or-hyphen", "Mq1 DEFINITIONS AUTOMATIC TAGS ::= BEGIN\nTq ::= SEQUENCE { fooBar NULL, foo-bar BOOLEAN }\nEND\n"),
     ("hand-input:component-named-like-an-escaped-keyword", "Mq1 DEFINITIONS AUTOMATIC TAGS ::= BEGIN\nTq ::= SEQUENCE { type INTEGER, r-type BOOLEAN }\nEND\n"),
+    // integer literals behind a chain of type references with a constrained hop (the literal takes the root type's spelling)
+    ("hand-input:integer-literal-behind-a-constrained-reference-chain", "Mq1 DEFINITIONS AUTOMATIC TAGS ::= BEGIN\nBase ::= INTEGER\nSub ::= Base (0..10)\nHolder ::= SEQUENCE { f Sub DEFAULT 3 }\nEND\n"),
+    ("hand-input:integer-literal-behind-a-constrained-reference-chain", "Mq1 DEFINITIONS AUTOMATIC TAGS ::= BEGIN\nBase ::= INTEGER\nSub ::= Base (0..10)\nAlias ::= Sub\nfour Alias ::= 4\nEND\n"),
+    ("hand-input:integer-literal-behind-a-constrained-reference-chain", "Mq1 DEFINITIONS AUTOMATIC TAGS ::= BEGIN\nBase ::= INTEGER\nSub ::= Base (0..10)\nPick ::= CHOICE { a Sub, b BOOLEAN }\nseven Pick ::= a : 7\nHolder ::= SEQUENCE { f Pick DEFAULT a : 1 }\nEND\n"),
+    ("hand-input:integer-literal-behind-a-constrained-reference-chain", "Mq1 DEFINITIONS AUTOMATIC TAGS ::= BEGIN\nBase ::= INTEGER (0..1000)\nSub ::= Base (0..10)\nAlias ::= Sub\nfour Alias ::= 4\nHolder ::= SEQUENCE { f Sub DEFAULT 3, g Base (0..5) DEFAULT 2 }\nEND\n"),
     ("hand-input:keyword-named-collection-of-anonymous-elements", "Mq1 DEFINITIONS AUTOMATIC TAGS ::= BEGIN\nSelf ::= SEQUENCE OF INTEGER (0..5)\nUq ::= SEQUENCE { s Self }\nEND\n"),
 ];
 
